@@ -13,7 +13,8 @@ PLAN = dict(
     jobs=both("c08.agree", _CFG, shards=(8, 16), floor=100)
          + both("c08.confirm", _CFG, shards=(4, 8), floor=10)
          + both("c08.peers", _CFG, shards=(4, 8), floor=50)
-         + both("c08.ecdh", _CFG, shards=(4, 8), floor=50),
+         + both("c08.ecdh", _CFG, shards=(4, 8), floor=50)
+         + both("c08.implicitsig", _CFG, shards=(1, 2), floor=20),
     assumptions=["harness/ref/sm2kx (GB/T 32918.3 on math/big affine arithmetic of ref/ec and the bitwise SM3 of ref/sm3) is right: "
                  "validated at every start against the recommended-curve example of GB/T 32918.5 / GM/T 0003.5 (public keys, ZA, ZB, "
                  "RA, RB, key, S1/SB, S2/SA) and the three vectors of the repository's tests, and by U = V on every session",
